@@ -275,6 +275,12 @@ def run(ctx):
                 with np.errstate(divide="ignore", invalid="ignore"):
                     th = np.arccos(np.clip(vHD @ vHA / np.linalg.norm(vHD) / rHA, -1, 1))
                     de = np.degrees(np.arccos(np.clip(vDH @ vDA / np.linalg.norm(vDH) / rDA, -1, 1)))
+                if bx is not None and np.abs(vDH + vHA - vDA).max() > 1e-6:
+                    # the three minimum-image sides do not close into a triangle: some separation is beyond half the cell (e.g. a
+                    # covalent bond stretched across more than half a box in a generated frame), where the geometry of a triplet
+                    # is not defined by minimum images and the property makes no claim -> undecided, counted
+                    th = de = float("nan")
+                    ctx.count("triplet frames beyond the minimum-image range (undecided)")
                 rows.append((rHA, th, rDA, de))
             geo[(d, h, a)] = rows
         rp = dict(rp0, call="baker_hubbard", freq=freq, distance_cutoff=dcut, angle_cutoff=acut, exclude_water=exw, sidechain_only=sco)
